@@ -81,6 +81,87 @@ def gen_curves_record(rng, ncycles=None, grid=None, size='small', gaps=None, sha
                 grid_mm=grid, curvature=rng.choice([0.0, 1.0, 0.5, 2.25]), ref=None)
 
 
+TOPS = ['positive', 'surface', 'negative']
+
+
+def gen_shared_top_record(rng, top=None, grid=None, ncycles=None, on_line=False):
+    """A saw-tooth record in which EVERY storm lifts the water level into one and the same cell of
+    the water-level grid, the highest recorded level lying strictly inside that cell (off the grid
+    lines; with `on_line` the highest peak stands exactly ON the upper grid line of the cell instead,
+    with on_line='all' every peak does).
+    The highest grid line below the record maximum is then crossed by every rise (it belongs to the
+    master rise curve) and by every recession that starts above it (master recession curve); the
+    storms start from different levels, so the lower end of the curves is ragged as usual.
+
+    top: 'positive' (the shared cell lies above the surface), 'surface' (the cell just above level
+    0: its lower grid line is level 0), 'negative' (below the surface), None = drawn.
+    Same record format as gen_curves_record; every level is a multiple of 1/16 mm."""
+    top = top or rng.choice(TOPS)
+    step = rng.choice(STEPS)
+    step_h = step / 3600.0
+    thr_s = rng.choice([2.0, 4.0, 1.0])
+    thr_j = rng.choice([4.0, 8.0, 5.0])
+    delta = thr_j * step_h
+    grid = grid or rng.choice([1.0, 2.0, 2.5, 0.5, 4.0, 5.0])
+    ncycles = ncycles or rng.randrange(3, 6)
+    kt = {'positive': rng.randrange(1, 30), 'surface': 0, 'negative': -rng.randrange(2, 200)}[top]
+    eighths = rng.sample(range(1, 8), ncycles)
+    if on_line == 'all':
+        eighths = [8] * ncycles
+    elif on_line:
+        eighths[rng.randrange(ncycles)] = 8
+    peaks = [(kt + e / 8.0) * grid for e in eighths]
+    rain, zeta = [], []
+    z = None
+    for c in range(ncycles):
+        ls = rng.randrange(1, 4)
+        ups = [math.ceil(delta * 8) / 8 + 0.125 * rng.randrange(8, 40) + 0.125 * rng.randrange(0, 9)
+               for _ in range(ls)]
+        # every rise crosses the grid line under the shared cell and at least one more
+        need = (eighths[c] / 8.0 + 1.0) * grid + 0.125 * rng.randrange(1, 24) - sum(ups)
+        if need > 0:
+            ups[rng.randrange(ls)] += math.ceil(need * 8) / 8
+        bottom = peaks[c] - sum(ups)
+        if z is None:
+            # dry lead-in down to the first storm's starting level
+            nlead = rng.randrange(0, 3)
+            z = bottom + 0.125 * nlead
+            zeta.append(z)
+            for _ in range(nlead):
+                rain.append(0.0)
+                z -= 0.125
+                zeta.append(z)
+        else:
+            lr = rng.randrange(6, 14)
+            fall = math.floor((z - bottom) / lr * 16) / 16
+            for k in range(lr):
+                rain.append(0.0)
+                z = bottom if k == lr - 1 else z - fall
+                zeta.append(z)
+        assert z == bottom, (z, bottom)
+        for k, up in enumerate(ups):
+            rain.append(thr_s + 0.5 * rng.randrange(1, 12))
+            z = peaks[c] if k == ls - 1 else z + up
+            zeta.append(z)
+        for _ in range(rng.randrange(1, 3)):
+            rain.append(rng.choice([thr_s, thr_s / 2, 0.25]))
+            z -= 0.125
+            zeta.append(z)
+    lr = rng.randrange(6, 14)
+    fall = max(0.125, math.floor(sum(ups) * rng.choice([0.8, 1.0, 1.1]) / lr * 16) / 16)
+    for k in range(lr):
+        rain.append(0.0)
+        z -= fall
+        zeta.append(z)
+    rain.append(0.0)
+    assert len(rain) == len(zeta)
+    t0 = rng.choice([1361318400, 1356998400, 946684800]) // step * step
+    return dict(cls='curves', step=step, thr_s=thr_s, thr_j=thr_j, t0=t0, rain=rain, zeta=zeta,
+                missing=[], lead=rng.randrange(0, 2), trail=rng.randrange(0, 2),
+                grid_mm=grid, curvature=rng.choice([0.0, 1.0, 0.5, 2.25]), ref=None,
+                top=top, top_cell=kt, peaks=peaks)
+
+
 def to_dataset(rec, et=None):
     ds = G.to_dataset(rec)
     if et is not None:
